@@ -469,6 +469,11 @@ func exec1(op string, a []string) string {
 		if len(parts) == 0 {
 			parts = []string{"-"}
 		}
+		// an unsupported script version yields no instruction and an error
+		t1 := txscript.MakeScriptTokenizer(1, s)
+		if t1.Next() || t1.Err() == nil || !t1.Done() {
+			return "api-mismatch"
+		}
 		return fmt.Sprintf("%s %s@%d", strings.Join(parts, ","), end, t.ByteIndex())
 	case "script":
 		s := unhx(a[0])
@@ -541,7 +546,12 @@ func exec1(op string, a []string) string {
 		s := unhx(a[0])
 		return fmt.Sprintf("fast=%d precise=%d", txscript.GetSigOpCount(s), txscript.VerifC13CountSigOpsV0(s, true))
 	case "p2sh":
-		return strconv.Itoa(txscript.GetPreciseSigOpCount(unhx(a[0]), unhx(a[1]), true))
+		// the third parameter is deprecated and must not matter
+		n1 := txscript.GetPreciseSigOpCount(unhx(a[0]), unhx(a[1]), true)
+		if n2 := txscript.GetPreciseSigOpCount(unhx(a[0]), unhx(a[1]), false); n1 != n2 {
+			return "api-mismatch"
+		}
+		return strconv.Itoa(n1)
 	case "wsig":
 		return strconv.Itoa(txscript.GetWitnessSigOpCount(unhx(a[0]), unhx(a[1]), parseWit(a[2])))
 	case "cost":
